@@ -39,10 +39,10 @@ type faultSpec struct {
 }
 
 type caseSpec struct {
-	Cfg      fx.Cfg
-	F        faultSpec
-	Second   *faultSpec // optional second fault (pairs)
-	EchoMode string     // write, writev, asyncwrite
+	Cfg        fx.Cfg
+	F          faultSpec
+	Second     *faultSpec // optional second fault (pairs)
+	EchoMode   string     // write, writev, writev-many (one slice per byte), asyncwrite
 	Bystanders int
 }
 
@@ -103,17 +103,17 @@ func table(cfg fx.Cfg, full bool) []faultSpec {
 // ---- handler -------------------------------------------------------------------------------------
 
 type cstate struct {
-	id       int
-	mode     string
-	reply    bool
-	gc       gnet.Conn
-	fd       int32
+	id            int
+	mode          string
+	reply         bool
+	gc            gnet.Conn
+	fd            int32
 	opens, closes int32
-	closeErr error
-	closedCh chan struct{}
-	mu       sync.Mutex
-	fails    []string
-	flooded  int32
+	closeErr      error
+	closedCh      chan struct{}
+	mu            sync.Mutex
+	fails         []string
+	flooded       int32
 }
 
 const floodSize = 3 << 20
@@ -145,6 +145,13 @@ func (c *cstate) OnTraffic(gc gnet.Conn) gnet.Action {
 	case "writev":
 		h := len(out) / 2
 		_, _ = gc.Writev([][]byte{out[:h], out[h:]})
+	case "writev-many":
+		// one slice per byte: more slices than one writev(2) takes (IOV_MAX)
+		bs := make([][]byte, len(out))
+		for i := range out {
+			bs[i] = out[i : i+1]
+		}
+		_, _ = gc.Writev(bs)
 	case "asyncwrite":
 		_ = gc.AsyncWrite(out, nil)
 	default:
@@ -163,11 +170,11 @@ func (c *cstate) OnClose(gc gnet.Conn, err error) gnet.Action {
 
 // echoer drives one connection from the peer side and checks both directions.
 type echoer struct {
-	c    net.Conn
-	st   *cstate
-	gen  vio.Gen
+	c     net.Conn
+	st    *cstate
+	gen   vio.Gen
 	hello bool
-	dead error
+	dead  error
 }
 
 func (e *echoer) round(n int) error {
@@ -233,7 +240,9 @@ type outcome struct {
 }
 
 func runFault(cs caseSpec) (o outcome) {
-	add := func(key, f string, a ...any) { o.fails = append(o.fails, fmt.Sprintf("VERIF-KEY:%s %s", key, fmt.Sprintf(f, a...))) }
+	add := func(key, f string, a ...any) {
+		o.fails = append(o.fails, fmt.Sprintf("VERIF-KEY:%s %s", key, fmt.Sprintf(f, a...)))
+	}
 	plan := &vshim.Plan{}
 	vshim.Install(plan)
 	defer vshim.Install(nil)
@@ -406,7 +415,11 @@ func runFault(cs caseSpec) (o outcome) {
 			rounds += cs.Second.K
 		}
 		for r := 0; r < rounds && verr == nil; r++ {
-			verr = victim.round(64 + 13*r)
+			sz := 64 + 13*r
+			if cs.EchoMode == "writev-many" {
+				sz = 1500 + 13*r
+			}
+			verr = victim.round(sz)
 		}
 		if cs.F.Setup == "peer-close" || (cs.Second != nil && cs.Second.Setup == "peer-close") {
 			victim.c.Close()
@@ -592,6 +605,9 @@ func TestC18Enumerate(t *testing.T) {
 				cs := caseSpec{Cfg: cfg, F: f, EchoMode: "write", Bystanders: 2}
 				if strings.Contains(f.Site, "writev") {
 					cs.EchoMode = "writev"
+					if strings.Contains(f.Site, "(*conn).writev") && kk%2 == 0 {
+						cs.EchoMode = "writev-many"
+					}
 				}
 				o := runFault(cs)
 				if o.infra != "" {
@@ -632,7 +648,7 @@ func TestC18Random(t *testing.T) {
 		}
 		cs := caseSpec{Cfg: cfg, F: f, EchoMode: rapid.SampledFrom([]string{"write", "writev", "asyncwrite"}).Draw(t, "echo"), Bystanders: rapid.IntRange(2, 4).Draw(t, "bystanders")}
 		if strings.Contains(f.Site, "writev") {
-			cs.EchoMode = "writev"
+			cs.EchoMode = rapid.SampledFrom([]string{"writev", "writev-many"}).Draw(t, "vector")
 		} else if strings.Contains(f.Site, "(*conn).write/") && cs.EchoMode == "writev" {
 			cs.EchoMode = "write"
 		}
